@@ -474,11 +474,7 @@ func checkCompileSorted(c *core.Check, rule string) {
 		n++
 		for _, m := range []string{"SortObjectsByAST", "SortEdgesByAST"} {
 			ok, _ := fl.MustPassBefore(ex.Blk, ex.Idx, func(nd ast.Node) bool {
-				call, isCall := nd.(*ast.CallExpr)
-				if !isCall || !core.IsCallTo(info, call, "d2graph.(*Graph)."+m) {
-					return false
-				}
-				return core.ObjOf(info, call.Fun.(*ast.SelectorExpr).X) == g
+				return sortsGraph(c, info, nd, g, m, 0)
 			})
 			c.Decide(ok, rule, "Compile:"+m+"≺success-return", ex.Ret.Pos(), "sorted on every success path", "a success return of Compile is reachable without "+m+": object/connection order then follows IR traversal, not first appearance in the source")
 		}
@@ -486,6 +482,59 @@ func checkCompileSorted(c *core.Check, rule string) {
 	if n == 0 {
 		c.Fail(rule, "Compile:no-success-return", comp.Decl.Pos(), "no success return found")
 	}
+	// nested boards are sorted as well: some function of d2compiler sorts its graph parameter and calls itself for
+	// the parameter's Layers, Scenarios and Steps
+	found := false
+	for _, fi := range c.P.Funcs(comp.Pkg) {
+		if fi.Decl.Body == nil {
+			continue
+		}
+		sig := fi.Obj.Type().(*types.Signature)
+		if sig.Params().Len() != 1 {
+			continue
+		}
+		pr := sig.Params().At(0)
+		sorts, rec := 0, false
+		fields := map[string]bool{}
+		ast.Inspect(fi.Decl.Body, func(nd ast.Node) bool {
+			switch x := nd.(type) {
+			case *ast.CallExpr:
+				for _, m := range []string{"SortObjectsByAST", "SortEdgesByAST"} {
+					if sortsGraph(c, info, x, pr, m, 2) {
+						sorts++
+					}
+				}
+				if core.CalleeOf(info, x) == fi.Obj {
+					rec = true
+				}
+			case *ast.SelectorExpr:
+				if core.ObjOf(info, x.X) == pr {
+					fields[x.Sel.Name] = true
+				}
+			}
+			return true
+		})
+		if sorts >= 2 && rec && fields["Layers"] && fields["Scenarios"] && fields["Steps"] {
+			// and Compile passes it on every success path with the returned graph
+			for _, ex := range fl.Exits() {
+				if ex.Ret == nil || len(ex.Ret.Results) != 3 || !core.IsNil(info, ex.Ret.Results[2]) {
+					continue
+				}
+				g := core.ObjOf(info, ex.Ret.Results[0])
+				if g == nil {
+					continue
+				}
+				ok, _ := fl.MustPassBefore(ex.Blk, ex.Idx, func(nd ast.Node) bool {
+					call, isCall := nd.(*ast.CallExpr)
+					return isCall && core.CalleeOf(info, call) == fi.Obj && len(call.Args) == 1 && core.ObjOf(info, call.Args[0]) == g
+				})
+				if ok {
+					found = true
+				}
+			}
+		}
+	}
+	c.Decide(found, rule, "Compile:nested-boards-sorted", comp.Decl.Pos(), "a recursive helper sorts the graph and its Layers, Scenarios and Steps", "only the root board is put in source order: layers, scenarios and steps keep the order in which the compiler created their objects and connections")
 }
 
 func runC06(c *core.Check) {
